@@ -26,8 +26,9 @@ ASSUMPTIONS = [
     'the monitor makes no claim (verdict 100) when the written description does not determine the outcome: a string '
     'that names different files from different requiring files, requests for one package that disagree about '
     'use_game_loop and thereby change the set of needed packages, package names containing "./" or a leading "/"',
-    'a file that picotool cannot lex + parse on its own is outside C14 (that is C07 / C08); such runs are compared '
-    'with the model but not judged',
+    'a file that picotool cannot lex + parse COMPLETELY on its own (error, or the parser stops before the last '
+    'token, as it silently does after a `return`) is outside C14 (that is C07 / C08); such runs are compared with '
+    'the model but not judged',
 ]
 PARTIAL = ('C14_tokens (significant tokens of the result = header ++ package blocks ++ loader ++ main tokens, package '
            'bodies intact apart from the stripped game-loop functions) is not proved in Coq: it needs the lexer '
@@ -507,7 +508,13 @@ def run_impl(case):
                     items.append('%s:%d' % (lib.hx(pth), 1 if gl else 0))
             except Exception as e:  # noqa
                 werr = lib.exc_name(e)
-            alone[rel] = {'err': None, 'items': items, 'werr': werr, 'echo': lib.hx(b''.join(lo.to_lines()))}
+            # did the parser consume the whole file?  (it stops silently after a `return`; such a file is
+            # not a Lua chunk, and C14 says nothing about it)
+            from pico8.lua import lexer as lx
+            rest = lo.tokens[lo._parser._pos:]
+            complete = all(isinstance(t, (lx.TokSpace, lx.TokNewline, lx.TokComment)) for t in rest)
+            alone[rel] = {'err': None, 'items': items, 'werr': werr, 'echo': lib.hx(b''.join(lo.to_lines())),
+                          'complete': complete}
         obs['alone'] = alone
     finally:
         util._error_stream = old_stream
@@ -572,7 +579,7 @@ def in_domain(case, obs):
     for rel, al in obs['alone'].items():
         if rel == 'unused.lua':
             continue
-        if al['err'] is not None:
+        if al['err'] is not None or not al.get('complete', True):
             return False
     return True
 
